@@ -89,10 +89,10 @@ def runBy (rest : List String) : String :=
     match (Tok.nat? n).bind (fun k => takeInts k r1) with
     | some (ins, "O" :: m :: r2) =>
       match (Tok.nat? m).bind (fun k => takeInts k r2) with
-      | some (outs, ["S", size, "A", a, "B", b]) =>
-        match Tok.int? size, Tok.int? a, Tok.int? b with
-        | some s, some x, some y => showRes (byronCheckFees ins outs s x y false)
-        | _, _, _ => "bad-op"
+      | some (outs, ["S", size, "A", a, "B", b, "R", r]) =>
+        match Tok.int? size, Tok.int? a, Tok.int? b, Tok.bool? r with
+        | some s, some x, some y, some rd => showRes (byronCheckFees ins outs s x y rd)
+        | _, _, _, _ => "bad-op"
       | _ => "bad-op"
     | _ => "bad-op"
   | _ => "bad-op"
